@@ -312,3 +312,16 @@ def cons_state(kind, n, tag, info):
     from .C17 import cons_from_prim
     P = prim_state(kind, n, tag)
     return cons_from_prim(kind, P, info), P
+
+
+def abstract_unimesh(chk, n, cls="unimesh"):
+    """the real uniform-mesh class with its constructor replaced by its contract (C20 'uniform'):
+    xf[f] = x0 + f*h, xc[i] = x0 + (i+1/2)*h, length = n*h, with an opaque cell size h > 0"""
+    from pyvc.interp import PyObj
+    h, x0 = z3.Real("hcell"), z3.Real("x0")
+    assume(h > 0)
+    xf = A.SymArray(T.add(n, 1), lambda f: T.add(x0, T.mul(f, h)), name="xf")
+    xc = A.SymArray(n, lambda i: T.add(x0, T.mul(T.add(i, Fraction(1, 2)), h)), name="xc")
+    o = PyObj(get(chk, "flowdyn.mesh", cls))
+    o.attrs.update({"ncell": n, "xf": xf, "xc": xc, "length": T.mul(n, h), "_type": "1D"})
+    return o, h, x0
